@@ -17,7 +17,7 @@ GenInit == InitState /\ dead = 0
 GenNext == \/ dead = 0 /\ Next /\ dead' = (IF Hard(res') THEN 1 ELSE 0)
            \/ dead \in 1..2 /\ AddFree("end") /\ dead' = dead + 1
            \/ /\ dead = 0 /\ Len(toks) >= Bound /\ Len(toks) < Bound + 3
-              /\ cfg.fam \in {"control", "while", "try", "tryloop", "apply", "loader", "escfiles"}
+              /\ cfg.fam \in {"control", "control4", "while", "try", "tryloop", "blockloop", "apply", "loader", "escfiles"}
               /\ res.kind = "parse" /\ res.soft
               /\ AddFree("end") /\ dead' = (IF Hard(res') THEN 3 ELSE 0)
 GenSpec == GenInit /\ [][GenNext]_<<vars, step, dead>>
